@@ -466,14 +466,14 @@ func checkC02(c *Ctx) {
 	}
 	if !run("histories_simulated", tlc.Run{Module: "TextSync", Workers: 1, Timeout: 40 * time.Minute,
 		Simulate: fmt.Sprintf("num=%d", num), Depth: depth + 1,
-		Cfg: tsCfg(`{"u1","u2"}`, allClasses, 2, 2, depth, 2, false, "NextSim", "Emit")}) {
+		Cfg: tsCfg(`{"u1","u+2"}`, allClasses, 2, 2, depth, 2, false, "NextSim", "Emit")}) {
 		return
 	}
 	// 5. the analysed view of further histories
 	type tsVData struct{ v *tsView }
 	if !c.streamRun("histories_analysed_view", tlc.Run{Module: "TextSync", Workers: 1, Timeout: 40 * time.Minute,
 		Simulate: fmt.Sprintf("num=%d", num), Depth: depth + 1, Seed: c.Seed + 1000,
-		Cfg: tsCfg(`{"u1","u2"}`, `{"a"}`, 3, 2, depth, 2, false, "NextSim", "Emit")}, p, 64, func(id int, raw json.RawMessage) *Job {
+		Cfg: tsCfg(`{"u1","u+2"}`, `{"a"}`, 3, 2, depth, 2, false, "NextSim", "Emit")}, p, 64, func(id int, raw json.RawMessage) *Job {
 		var tc tsCase
 		if json.Unmarshal(raw, &tc) != nil {
 			return nil
